@@ -111,12 +111,20 @@ PROPS = {
                    "buffer (no false end-of-stream), a frame is handed to the transport completely and in order before the next payload is "
                    "sealed (wire_out ++ pending == old wire_out ++ old pending), every frame is LE16(n) ++ seal(payload) with n = |payload|+16 "
                    "and total length <= 65537, the length prefix is never truncated, and a successful flush/shutdown leaves nothing buffered: "
-                   "wire_out == old wire_out ++ old pending frame ++ frame_of(buffered plaintext).",
+                   "wire_out == old wire_out ++ old pending frame ++ frame_of(buffered plaintext). Reader side (ghost wire_in = the bytes the "
+                   "transport has still to deliver): poll_read_frame conserves frame buffer ++ wire_in (bytes only move from the transport to "
+                   "the end of the frame buffer, in order); poll_read_payload never overwrites undelivered plaintext and otherwise consumes "
+                   "nothing (end of stream / error / pending) or EXACTLY ONE frame LE16(n) ++ n bytes from the front of the undecoded input, "
+                   "leaving opened(frame body) as the buffered plaintext; poll_read appends the first min(remaining, |p|) bytes of that "
+                   "plaintext to the caller's buffer and keeps the rest. lemma_frame_roundtrip: if the undecoded input starts with the frame "
+                   "the writer built for p (paired cipher states), the reader consumes exactly that frame, hands out p and leaves the "
+                   "following input untouched.",
         level_note="Trusted: snow (AEAD: tamper/replay => error is snow's property; write_message/read_message length contract), tokio "
                    "AsyncRead/AsyncWrite poll contracts, pin-projection (Pin::new on Unpin is the identity; self.project() is modelled by a "
                    "struct of &mut fields), std slice operations behind 7 one-line R-std wrappers whose bodies are the replaced std "
-                   "expressions. Not decided: the reader-side ordering as a ghost sequence (rx_plain == concat of decrypted frames) and "
-                   "cross-endpoint composition; the noise handshake loop is covered under C10 when claimed.",
+                   "expressions; A3 axioms seal_props (ciphertext = plaintext + 16 bytes; a paired reader state opens a sealed payload to "
+                   "that payload) and A1 le16_props (to_le_bytes injective). Not decided: the induction over a whole stream of frames (the "
+                   "one-frame lemma is its step), the evolution of the cipher state between frames, AEAD integrity (tampering => error).",
         technique="contract-based deductive verification (Verus on extracted real functions; ghost wire sequence on the transport stub)",
         design_ref="DESIGN.md §5 C13",
         assumptions=[],
